@@ -115,6 +115,7 @@ pub fn gen_program(rng: &mut Rng, big: bool) -> Program {
             read_response: rng.chance(4, 5),
             stop_after_pieces: if pieces > 0 && rng.chance(1, 6) { Some(rng.usize(pieces + 1)) } else { None },
             hold: None,
+            late_split: None,
         });
         let resp = msggen::gen_response(rng, &o);
         let pieces = resp.body.len();
@@ -125,6 +126,7 @@ pub fn gen_program(rng: &mut Rng, big: bool) -> Program {
             read_request: rng.chance(4, 5),
             stop_after_pieces: if pieces > 0 && rng.chance(1, 6) { Some(rng.usize(pieces + 1)) } else { None },
             hold: None,
+            late_split: None,
         });
     }
     let sizes = [None, Some(0u64), Some(100), Some(1000), Some(16384), Some((1 << 62) - 1)];
